@@ -674,7 +674,11 @@ func script(rng interface{ IntN(int) int }, n, maxTotal int) []int {
 // runStream: one UniformDH connection and (using the ticket it was given) one
 // ticket connection; on each, concurrent reader and writer on the client,
 // position-dependent streams both ways.
-func runStream(c *mon.Case, r *mon.Run, dir string, chunk int, scenario int, seed uint64) {
+// bigMenu: single application writes well beyond any internal buffer size a
+// transport might use (io.Copy's 32 KiB, 64 KiB), deliberately not multiples of them.
+var bigMenu = []int{32767, 32769, 40000, 65535, 65537, 98305, 100001, 131073, 200003}
+
+func runStream(c *mon.Case, r *mon.Run, dir string, chunk int, scenario int, seed uint64, big int) {
 	rng := mon.NewRand(seed)
 	sc := newSrv(seed ^ 0x5e)
 	cf, err := newFactory(dir)
@@ -707,6 +711,13 @@ func runStream(c *mon.Case, r *mon.Run, dir string, chunk int, scenario int, see
 			maxTotal = 5000
 		}
 		sScript, cScript := script(rng, nW, maxTotal), script(rng, nW, maxTotal)
+		if big > 0 {
+			b := bigMenu[(big-1+round)%len(bigMenu)]
+			b2 := bigMenu[(big+3+round)%len(bigMenu)]
+			cScript, sScript = []int{rng.IntN(200), b, 1 + rng.IntN(3000), b2, 17}, []int{b, 1 + rng.IntN(200), b2, 3000, 1}
+			nW = 5
+			r.Count("big_write_connections", 1)
+		}
 		// server first write: response, in scenario 1 coalesced with ticket, seed and the first payload
 		first := resp
 		var issued bool
@@ -1574,11 +1585,32 @@ func TestCheck(t *testing.T) {
 					if err != nil {
 						t.Fatal(err)
 					}
-					safely(c, "stream", func() { runStream(c, r, dir, ci, scen, r.Sub("stream", ci, scen, k)) })
+					safely(c, "stream", func() { runStream(c, r, dir, ci, scen, r.Sub("stream", ci, scen, k), 0) })
 					os.RemoveAll(dir)
 				}
 			})
 		}
+	}
+	r.Note("big_writes", "additional family: both sides perform single application writes of 32767..200003 bytes (not multiples of 32 KiB / 64 KiB) between small writes, under all-available / PRNG / 4 KiB-window chunking; counted as big_write_connections")
+	// single large application writes (not multiples of 32 KiB / 64 KiB)
+	for ci := range chunkings {
+		if n := chunkings[ci].name; n != "all" && n != "prng3000" && n != "win4096" {
+			continue
+		}
+		ci := ci
+		r.Bubble("stream-big/"+chunkings[ci].name, func(c *mon.Case) {
+			for bi := range bigMenu {
+				if !r.Thorough() && (bi+ci)%3 != 0 {
+					continue
+				}
+				dir, err := os.MkdirTemp(base, "bb-")
+				if err != nil {
+					t.Fatal(err)
+				}
+				safely(c, "stream", func() { runStream(c, r, dir, ci, bi%3, r.Sub("stream-big", ci, bi), bi+1) })
+				os.RemoveAll(dir)
+			}
+		})
 	}
 
 	// ---------------- (C)
